@@ -89,7 +89,7 @@ func sameList(a, b []json.RawMessage) (bool, string) {
 	}
 	for i := range a {
 		if !scen.SameJSON(a[i], b[i]) {
-			return false, fmt.Sprintf("item %d: %s", i, firstDiff(a[i], b[i]))
+			return false, fmt.Sprintf("item %d: %s; live %s, restored %s", i, firstDiff(a[i], b[i]), kinds(a), kinds(b))
 		}
 	}
 	return true, ""
